@@ -1,4 +1,5 @@
 """Model-vs-implementation sweep over generated definitions (is the generated model the code?)."""
+import json, os
 import random, collections, json, os
 from .core import enc, run_pair, cmp_tokens, GEN
 from . import gen
@@ -95,8 +96,25 @@ def f32_overflow(a, b):
     return True
 
 
+def _load_f32_exact():
+    try:
+        from .core import GEN
+        return set(json.load(open(os.path.join(GEN, 'baseline.json'))).get('f32_exact', []))
+    except Exception:
+        return set()
+
+
+F32_EXACT = None
+
+
 def tolerance(lean, d, kind):
+    global F32_EXACT
+    if F32_EXACT is None:
+        F32_EXACT = _load_f32_exact()
     if kind == 'f32':
+        if lean in F32_EXACT:
+            # accepted baseline: this definition widens its f32 argument first and computes in binary64
+            return 1e-9, 1e-30
         return 3e-7, 1e-30
     if d['name'] in ('sf', 'cdf'):
         return 1e-9, 1e-9
@@ -143,7 +161,7 @@ def sweep(manifest, names, n_per_op, seed, kinds_limit=None):
             continue
         rel, ab = tolerance(lean, manifest['defs'][lean], kind)
         ok, detail = cmp_tokens(a, b, rel, ab)
-        if not ok and kind == 'f32' and f32_overflow(a, b):
+        if not ok and kind == 'f32' and lean not in (F32_EXACT or ()) and f32_overflow(a, b):
             ok = True
         if not ok:
             st[1] += 1
